@@ -30,6 +30,7 @@ def nondeg : LTy → Bool
   | .withTop _ => true
   | .pair a b => nondeg a || nondeg b
   | .domPair a b => nondeg a || nondeg b
+  | .tri a b c => nondeg a || nondeg b || nondeg c
   | .vec _ => true
 
 /-- domain of the C03 theorems: every nesting in which `DomPair` keys are totally ordered and
@@ -42,6 +43,7 @@ def okB : LTy → Bool
   | .withTop t => okB t
   | .vec t => okB t
   | .pair a b => okB a && okB b
+  | .tri a b c => okB a && okB b && okB c
   | _ => true
 
 /-- domain of the C01/C02 theorems: every nesting of the shipped constructors; a `DomPair` key must
@@ -54,6 +56,7 @@ def okA : LTy → Bool
   | .withTop t => okA t
   | .vec t => okA t
   | .pair a b => okA a && okA b
+  | .tri a b c => okA a && okA b && okA c
   | _ => true
 
 end HvLat
